@@ -62,6 +62,19 @@ def i1_insertion_cost_order(F, r):
             r.ok("cmp closure: padding", f"missing component => default via {sorted(set(pads))}")
         else:
             r.fail("cmp closure: padding", "missing trailing component is not padded with zero (unwrap/index would panic or shorter vector compares differently)", F.loc(c))
+    # no other comparison anywhere in cmp (fast paths over slices, partial_cmp ...) and every return passes the fold
+    stray = [t["callee"] for g in F.family(ORD_CMP) for _, t in mir.calls(F.fns[g])
+             if t["callee"].split("::")[-1] in ("partial_cmp", "lt", "le", "gt", "ge", "eq", "ne") or
+             (t["callee"].split("::")[-1] == "cmp" and "usize" not in " ".join(t["ga"]))]
+    if stray:
+        r.fail("cmp: single comparison path", f"InsertionCost::cmp contains a second comparison path ({stray[0]}): two paths that treat -0.0 / missing components differently break transitivity", F.loc(ORD_CMP))
+    else:
+        r.ok("cmp: single comparison path", "the fold over total_cmp is the only comparison")
+    folds_b = [bi for bi, t in mir.calls(fn) if t["callee"].split("::")[-1] in ("try_fold", "fold")]
+    if folds_b and not (set(mir.ret_blocks(fn)) & mir.reach(fn, [0], blocked=folds_b)):
+        r.ok("cmp: every return through the fold")
+    else:
+        r.fail("cmp: every return through the fold", "InsertionCost::cmp can return without running the component fold (early return / fast path)", F.loc(ORD_CMP))
     # fold law by E-C: Equal => Continue(acc), otherwise Break(result)
     env = {1: oe.ref(("closure", c, [oe.ref(oe.sym("self")), oe.ref(oe.sym("other"))])), 2: oe.sym("acc"), 3: oe.sym("idx")}
     it = oe.Interp(F, c, env, fresh=True)
@@ -267,6 +280,19 @@ def g1_goal_fold(F, r):
     fits = [(bi, t) for bi, t in mir.calls(ccf) if t["callee"].endswith("FeatureObjective::fitness")]
     tc = [(bi, t) for bi, t in mir.calls(ccf) if t["callee"].endswith("total_cmp")]
     bad = [t["callee"] for _, t in mir.calls(ccf) if t["callee"].split("::")[-1] in ("partial_cmp",)]
+    odd = []
+    for _, _, s_ in mir.stmts(ccf):
+        rv_ = s_["r"]
+        if rv_["k"] == "bin" and rv_["ty"] in ("f64", "f32"):
+            zero_eq = rv_["op"] == "Eq" and any(mir.is_const(o) and str(o["c"]).lstrip("-").startswith("0") for o in rv_["o"])
+            if not zero_eq:
+                odd.append(rv_["op"])
+    odd += [t["callee"].split("::")[-1] for _, t in mir.calls(ccf) if t["callee"].split("::")[-1] in ("abs", "round", "floor", "ceil", "max", "min") and "f64" in t["callee"]]
+    if odd:
+        r.fail("add_single comparator: exact", f"single-objective comparator uses float arithmetic / tolerance ({sorted(set(odd))}) besides total_cmp and the explicit both-zero case: "
+               "`almost equal` is not transitive and no longer coincides with comparing the reported fitness", F.loc(cc))
+    else:
+        r.ok("add_single comparator: exact", "only total_cmp and the explicit `== 0.` tests")
     if len(fits) == 2 and len(tc) == 1 and not bad:
         fa = {(k, v) for k, v, p in mir.trace(ccf, fits[0][1]["args"][1])}
         fb = {(k, v) for k, v, p in mir.trace(ccf, fits[1][1]["args"][1])}
@@ -280,14 +306,79 @@ def g1_goal_fold(F, r):
         r.fail("add_single comparator", f"comparator shape changed (fitness calls: {len(fits)}, total_cmp: {len(tc)}, partial: {bad}): totality of single-layer goals not decided", F.loc(cc))
 
 
+DOM = "rosomaxa::evolution::objectives::dominance_order"
+
+
+def d1_dominance_order(F, r):
+    fn = F.fns.get(DOM)
+    if fn is None:
+        raise AnchorError(DOM)
+    # the two counters: integer locals incremented by 1 inside the loop, classified by the arm of the match on the ordering result
+    loops = mir.natural_loops(fn)
+    if not loops:
+        raise AnchorError("dominance_order: loop")
+    body = set().union(*loops.values())
+    incs = {}
+    for bi, si, s in mir.stmts(fn):
+        rv = s["r"]
+        if bi in body and rv["k"] == "bin" and rv["op"] in ("AddWithOverflow", "Add") and mir.is_const(rv["o"][1]) and str(rv["o"][1]["c"]).startswith("1_") and mir.is_place(rv["o"][0]):
+            incs[rv["o"][0]["l"]] = bi
+    if len(incs) != 2:
+        raise AnchorError(f"dominance_order: {len(incs)} counters")
+    # which arm: switch on discriminant of the ordering call result (-1 Less, 1 Greater)
+    arm = {}
+    for sb in sorted(body):
+        tt = fn["bbs"][sb]["t"]
+        if tt["k"] == "switch" and any(s["r"]["k"] == "discr" and s["d"]["l"] == tt["o"].get("l") for s in fn["bbs"][sb]["s"]):
+            for v, tb in tt["tg"]:
+                vv_ = v - 2 ** 64 if v >= 2 ** 63 else (v - 256 if 128 <= v < 256 else v)
+                sub = mir.reach(fn, [tb], blocked=[sb] + list(loops))
+                for l, ib in incs.items():
+                    if ib in sub:
+                        arm[l] = vv_
+    less = [l for l, v in arm.items() if v == -1]
+    greater = [l for l, v in arm.items() if v == 1]
+    if len(less) != 1 or len(greater) != 1:
+        r.fail("dominance_order: counters", f"cannot classify the two counters by match arm ({arm})", F.loc(DOM))
+        return
+    L, G = less[0], greater[0]
+    # loop exit: successor of a loop block outside the body from which a return is reachable
+    exits = sorted({y for b in body for y in mir.succs(fn)[b] if y not in body})
+    exits = [e for e in exits if set(mir.ret_blocks(fn)) & mir.reach(fn, [e])]
+    if len(exits) != 1:
+        raise AnchorError(f"dominance_order: loop exits {exits}")
+    table = {}
+    for l in (0, 1):
+        for g in (0, 1):
+            it = oe.Interp(F, DOM, {L: ("int", l), G: ("int", g)}, fresh=True)
+            it.start_block = exits[0]
+            rets = {p.ret for p in it.explore()}
+            if len(rets) != 1 or list(rets)[0][0] != "ord":
+                r.fail(f"dominance_order[less={'>0' if l else 0},greater={'>0' if g else 0}]", f"result not decidable ({rets})", F.loc(DOM))
+                return
+            table[(l, g)] = list(rets)[0][1]
+    for (l, g), o in sorted(table.items()):
+        inst = f"dominance_order[less={'>0' if l else '0'},greater={'>0' if g else '0'}]"
+        mirror = table[(g, l)]
+        if o != oe.rev(mirror):
+            r.fail(inst, f"cmp(a,b)={o} but cmp(b,a)={mirror} for the swapped counts: the multi-objective comparison is not antisymmetric (both of two conflicting solutions can be `worse`)", F.loc(DOM))
+        elif (l, g) == (0, 0) and o != "E":
+            r.fail(inst, "identical solutions do not compare Equal (not reflexive)", F.loc(DOM))
+        elif (l, g) == (1, 0) and o != "L":
+            r.fail(inst, f"a dominating solution compares {o}", F.loc(DOM))
+        else:
+            r.ok(inst, f"{o}, mirror {mirror}")
+
+
 def run(ctx):
     ctx.explanation = (
         "Implementation-structure analysis of the comparison code: the InsertionCost fold is evaluated by the finite-ordering interpreter over "
         "Less/Equal/Greater (Equal continues, anything else breaks with that order), its operands are self[i]/other[i] with the same index compared "
         "only by f64::total_cmp with zero padding over 0..max(len); PartialOrd/PartialEq delegate to Ord; Add/Sub are element-wise with the right "
         "operator; Goal::total_order folds layers front to back with the same law and calls each layer with (a, b); fitness enumerates the same layers.")
-    ctx.not_decided = "reflexivity/antisymmetry of multi-objective (dominance_order) layers; (x+y)-y == x numerically; sign of zero."
+    ctx.not_decided = "transitivity of multi-objective (dominance) layers and of custom multi-layer order functions; (x+y)-y == x numerically; sign of zero."
     ctx.assumptions += ["a lexicographic extension of a total order with a fixed padding value is a total order", "f64::total_cmp is a total order (IEEE 754 totalOrder)"]
     ctx.run("C09-I1", "InsertionCost ordering is a lexicographic fold of total_cmp over padded components; PartialOrd/PartialEq agree with Ord", i1_insertion_cost_order, floor=9)
     ctx.run("C09-I2", "InsertionCost Add/Sub are element-wise (same index, right operator, zero padding, max length)", i2_arith, floor=4)
+    ctx.run("C09-D1", "dominance_order is reflexive and antisymmetric (evaluated over the abstract counts {0,>0}^2)", d1_dominance_order, floor=4)
     ctx.run("C09-G1", "Goal::total_order is a front-to-back lexicographic fold calling each layer with (a, b); fitness uses the same layer order; single layers use total_cmp", g1_goal_fold, floor=7)
